@@ -27,6 +27,7 @@ MAX_BLOCKS = 28
 MAX_STMTS = 80
 TRY_BRANCH = "std::ops::Try::branch"
 FROM_RESIDUAL = "std::ops::FromResidual::from_residual"
+CONVERSIONS = ("std::convert::From::from", "std::convert::Into::into")
 
 
 def _const_bool(st):
@@ -173,10 +174,79 @@ def _branch_payload(env, roots, src, dest):
                 roots[(dest, cont, 0)] = roots.get(k, frozenset()) | {dest}
 
 
-def _seed_env(body, bl, roots):
-    env = {}
+def _seed_env(body, bl, roots, env=None):
+    env = {} if env is None else env
     for st in bl["stmts"]:
         _step(env, st, roots)
+    return env
+
+
+def _preds_of(blocks):
+    preds = {}
+    for b, bl in enumerate(blocks):
+        if bl["cleanup"] or bl.get("dead"):
+            continue
+        t = bl["term"]
+        k = t["t"]
+        nx = []
+        if k == "goto":
+            nx = [t["target"]]
+        elif k == "switch":
+            nx = [tg for (_, tg) in t["arms"]] + [t["otherwise"]]
+        elif k in ("call", "drop", "assert"):
+            if t.get("target") is not None:
+                nx.append(t["target"])
+        for x in set(nx):
+            preds.setdefault(x, []).append(b)
+    return preds
+
+
+def _edge_env(blocks, preds, d, roots):
+    """what the branches on the way into block d say about the values they tested: along the chain of unique predecessors,
+    a `match x { V(..) => <here> }` edge means x is (still) a V.  Only used to pass later re-tests of the same value (the
+    drop elaboration of a matched Result, a second match on it); a path is threaded only if it also *stores* a known value"""
+    chain = []
+    cur = d
+    for _ in range(16):
+        ps = [p for p in preds.get(cur, []) if not blocks[p]["cleanup"] and not blocks[p].get("dead")]
+        if len(ps) != 1 or ps[0] == d or any(ps[0] == c for c, _ in chain):
+            break
+        chain.append((ps[0], cur))
+        cur = ps[0]
+    chain.reverse()
+    env = {}
+    for (p, nxt) in chain:
+        discr_of = {}
+        for st in blocks[p]["stmts"]:
+            _step(env, st, roots)
+            if st.get("s") == "assign" and not st["place"]["proj"]:
+                discr_of.pop(st["place"]["l"], None)
+                rv = st["rv"]
+                if rv["r"] == "discr" and rv.get("variants"):
+                    src = _src_key(rv["place"])
+                    if src is not None:
+                        discr_of[st["place"]["l"]] = (src, rv["variants"])
+        t = blocks[p]["term"]
+        if t["t"] == "switch":
+            l = _plain_local(t["discr"])
+            if l in discr_of:
+                src, variants = discr_of[l]
+                vals = [v for (v, tg) in t["arms"] if tg == nxt]
+                name = None
+                if len(vals) == 1 and t["otherwise"] != nxt and isinstance(vals[0], int) and 0 <= vals[0] < len(variants):
+                    name = variants[vals[0]]
+                elif not vals and t["otherwise"] == nxt:
+                    rest = [i for i in range(len(variants)) if i not in [v for (v, _) in t["arms"]]]
+                    if len(rest) == 1:
+                        name = variants[rest[0]]
+                if name is not None:
+                    base = src if isinstance(src, int) else src[0]
+                    env[src] = ("variant", name)
+                    roots[src] = frozenset([base])
+        elif t["t"] == "call":
+            _kill(env, t["dest"]["l"], roots)
+        elif t["t"] == "drop":
+            _kill(env, t["place"]["l"], roots)
     return env
 
 
@@ -205,29 +275,33 @@ def thread_bools(body):
 
     n_threaded = 0
     nb0 = len(blocks)
+    preds = _preds_of(blocks)
     for d in range(nb0):
         bl = blocks[d]
         if bl["cleanup"]:
             continue
         t0 = bl["term"]
         roots = {}
+        if not _seed_env(body, bl, {}) and not (t0["t"] == "call" and t0.get("callee", {}).get("path") in (TRY_BRANCH, FROM_RESIDUAL)):
+            continue      # nothing of known shape is stored here
+        edge_env = _edge_env(blocks, preds, d, roots)
         if t0["t"] == "goto":
-            env = _seed_env(body, bl, roots)
+            env = _seed_env(body, bl, roots, edge_env)
             start = t0["target"]
         elif t0["t"] == "drop" and t0.get("target") is not None:
-            env = _seed_env(body, bl, roots)
+            env = _seed_env(body, bl, roots, edge_env)
             env = dict(env)
             _kill(env, t0["place"]["l"], roots)
             start = t0["target"]
         elif t0["t"] == "switch" and _cond_drop(blocks, d, t0) is not None and len([p_ for p_ in body.preds()[_cond_drop(blocks, d, t0)[0]] if not blocks[p_]["cleanup"]]) == 1:
             # the block that stores the value ends in `if flag { drop(x) }`: both sides continue at the join
-            env = _seed_env(body, bl, roots)
+            env = _seed_env(body, bl, roots, edge_env)
             env = dict(env)
             seed_diamond = _cond_drop(blocks, d, t0)
             _kill(env, blocks[seed_diamond[0]]["term"]["place"]["l"], roots)
             start = seed_diamond[1]
         elif t0["t"] == "call":
-            env = _seed_env(body, bl, roots)
+            env = _seed_env(body, bl, roots, edge_env)
             k = _call_knowledge(body, env, t0)
             if k is None:
                 continue
@@ -302,6 +376,12 @@ def thread_bools(body):
                     roots2[t["dest"]["l"]] = (roots2.get(src, frozenset()) if src is not None else frozenset()) | {t["dest"]["l"]}
                     call_dup = copy.deepcopy(t)
                     nxt = t["target"]
+                elif resolved and t.get("callee", {}).get("path") in CONVERSIONS and len(t["args"]) == 1 and not t["dest"]["proj"] and t.get("target") is not None:
+                    # past the re-test, on an exit path: `Err(e) => return Err(E::from(e))` -- the conversion `?` would have
+                    # made; each error exit gets its own copy, as each `?` has its own from_residual
+                    _kill(env2, t["dest"]["l"], roots2)
+                    call_dup = copy.deepcopy(t)
+                    nxt = t["target"]
             if nxt is None or nst + len(cb["stmts"]) > MAX_STMTS:
                 break
             if resolved and not (t["t"] == "switch" and nxt is not None and cur_resolves) and not all(st.get("s") == "other" or (st.get("s") == "assign" and (st["rv"]["r"] in ("use", "discr") or (st["rv"]["r"] == "aggregate" and (st["rv"].get("ak") == "closure" or (st["rv"].get("path") == "std::result::Result" and st["rv"].get("variant") == "Err"))))) for st in cb["stmts"]):
@@ -363,6 +443,7 @@ def thread_bools(body):
         else:
             t0["target"] = entry
         n_threaded += 1
+        preds = _preds_of(blocks)
     if n_threaded:
         # blocks that no path reaches any more (the joined re-test when every store was threaded) carry no meaning
         reach = set()
@@ -423,9 +504,22 @@ def fold_constant_switches(body):
             else:
                 borrowed.add(t["dest"]["l"])
 
+    def discr_int(v, rv):
+        """the integer a discriminant read yields for a known variant (by index or by name)"""
+        idx = v[1]
+        if v[0] == "variantname":
+            names = rv.get("variants") or []
+            if idx not in names:
+                return None
+            idx = names.index(idx)
+        ds_ = rv.get("discrs")
+        return ("int", ds_[idx] if ds_ and idx < len(ds_) else idx)
+
     def value_of(l, depth=0):
-        """("variant", index) / ("bool", b) of a single-definition local, through whole-local copies"""
-        if depth > 6 or l in borrowed or l <= body.arg_count:
+        """("variant", index) / ("variantname", name) / ("bool", b) / ("int", n) / ("refto", <value of the referent>) of a
+        single-definition local, through whole-local copies, shared references to such locals and promoted enum constants
+        (what a derived `==` on a field-less enum is made of: two discriminant reads behind references and an integer Eq)"""
+        if depth > 16 or l in borrowed or l <= body.arg_count:
             return None
         ds = defs.get(l, [])
         if len(ds) != 1 or ds[0] is None:
@@ -433,15 +527,46 @@ def fold_constant_switches(body):
         rv = ds[0]["rv"]
         if rv["r"] == "aggregate" and rv.get("ak") == "adt" and not rv.get("ops") and rv.get("variant_idx") is not None:
             return ("variant", rv["variant_idx"])
-        if rv["r"] == "use" and rv["op"]["o"] == "const" and isinstance(rv["op"]["c"].get("v"), bool):
-            return ("bool", rv["op"]["c"]["v"])
+        if rv["r"] == "use" and rv["op"]["o"] == "const":
+            cv = rv["op"]["c"].get("v")
+            if isinstance(cv, bool):
+                return ("bool", cv)
+            if isinstance(cv, dict) and cv.get("k") == "enum" and not cv.get("fields") and cv.get("variant") is not None:
+                return ("variantname", cv["variant"])
+            if isinstance(cv, dict) and cv.get("k") == "ref" and isinstance(cv.get("v"), dict) and cv["v"].get("k") == "enum" and not cv["v"].get("fields") and cv["v"].get("variant") is not None:
+                return ("refto", ("variantname", cv["v"]["variant"]))
+            return None
         if rv["r"] == "use" and rv["op"]["o"] in ("copy", "move") and not rv["op"]["place"]["proj"]:
             return value_of(rv["op"]["place"]["l"], depth + 1)
-        if rv["r"] == "discr" and not rv["place"]["proj"]:
-            v = value_of(rv["place"]["l"], depth + 1)
-            if v is not None and v[0] == "variant":
-                ds_ = rv.get("discrs")
-                return ("int", ds_[v[1]] if ds_ and v[1] < len(ds_) else v[1])
+        if rv["r"] == "ref" and not (rv.get("bk") == "mut" or "Mut" in str(rv.get("bk"))):
+            pl = rv["place"]
+            if not pl["proj"]:
+                v = value_of(pl["l"], depth + 1)
+                return ("refto", v) if v is not None and v[0] in ("variant", "variantname") else None
+            if len(pl["proj"]) == 1 and pl["proj"][0].get("p") == "deref":      # reborrow
+                v = value_of(pl["l"], depth + 1)
+                return v if v is not None and v[0] == "refto" else None
+            return None
+        if rv["r"] == "discr":
+            pl = rv["place"]
+            v = None
+            if not pl["proj"]:
+                v = value_of(pl["l"], depth + 1)
+            elif len(pl["proj"]) == 1 and pl["proj"][0].get("p") == "deref":
+                r_ = value_of(pl["l"], depth + 1)
+                v = r_[1] if r_ is not None and r_[0] == "refto" else None
+            if v is not None and v[0] in ("variant", "variantname"):
+                return discr_int(v, rv)
+            return None
+        if rv["r"] == "binop" and rv.get("bop") in ("Eq", "Ne"):
+            ab = []
+            for o in (rv["a"], rv["b"]):
+                if o["o"] in ("copy", "move") and not o["place"]["proj"]:
+                    ab.append(value_of(o["place"]["l"], depth + 1))
+                else:
+                    ab.append(None)
+            if all(x is not None and x[0] == "int" for x in ab):
+                return ("bool", (ab[0][1] == ab[1][1]) == (rv["bop"] == "Eq"))
         return None
     n = 0
     for b, bl in enumerate(blocks):
